@@ -120,7 +120,17 @@ func keyedCallee(w *World, f *types.Func) bool {
 			}
 		case *ast.CallExpr:
 			if f2, isF := typeutil.Callee(info, x).(*types.Func); isF && f2.Pkg() != nil && strings.HasPrefix(f2.Pkg().Path(), modPath) {
-				ok = false // conservatively: no further module calls
+				// a nested call keyed by the same key is confined to the same entry
+				nested := false
+				if len(x.Args) >= 1 && f2.Origin() != f.Origin() {
+					if id, isId := ast.Unparen(x.Args[0]).(*ast.Ident); isId && info.Uses[id] == kobj && keyedCallee(w, f2) {
+						nested = true
+						stores++
+					}
+				}
+				if !nested {
+					ok = false // conservatively: no further module calls
+				}
 			}
 		}
 		return true
